@@ -821,9 +821,14 @@ class FuncTranslator:
         self.counter = saved
         t = types[0]
         for t2 in types[1:]:
-            t = self.unify(t, t2)
-            if t is None:
+            t = self.unify(t, t2) if t is not None else None
+        if t is None:
+            # the branches have different static types: fine where the CONTEXT fixes the type and each branch can
+            # be used there (`d[k] = int(v) if v.isdigit() else v` with a dict of run-time values)
+            exp = getattr(self, "expect_type", None)
+            if exp is None:
                 self.bad(node, "the branches of the conditional expression have different types")
+            t = exp
         if t == LIT:
             t = INT
 
@@ -872,7 +877,11 @@ class FuncTranslator:
                 if ta != STR:
                     self.bad(node, "`in` on %r and a str table" % (ta,))
                 return "(%s(lookup %s %s).isSome)" % (neg, a, TABLES[ast.unparse(rn)])
-            b, tb = self.expr(rn, env)
+            if isinstance(rn, ast.Tuple):
+                # membership in a tuple LITERAL: the same as in the list literal of its elements
+                b, tb = self.list_literal(rn, env)
+            else:
+                b, tb = self.expr(rn, env)
             if tb[0] == "dict":
                 if ta != tb[1]:
                     self.bad(node, "`in` on %r and %r" % (ta, tb))
@@ -1092,7 +1101,10 @@ class FuncTranslator:
             gen = g.generators[0]
             if not isinstance(gen.target, ast.Name):
                 self.bad(node, "generator target must be a name")
-            xs, txs = self.expr(gen.iter, env)
+            if isinstance(gen.iter, ast.Tuple):
+                xs, txs = self.list_literal(gen.iter, env)     # iterating a tuple LITERAL = the list of its elements
+            else:
+                xs, txs = self.expr(gen.iter, env)
             if txs[0] != "list" or txs[1] is None:
                 self.bad(node, "generator over a value of type %r" % (txs,))
             x = lean_ident(gen.target.id)
@@ -1480,7 +1492,11 @@ class FuncTranslator:
                 if d.type[0] != "dict":
                     self.bad(st, "`%s` is not a dict here" % dname)
                 k_, tk_ = self.expr(st.targets[0].slice, e)
-                v_, tv_ = self.expr(st.value, e)
+                saved_exp, self.expect_type = getattr(self, "expect_type", None), d.type[2]
+                try:
+                    v_, tv_ = self.expr(st.value, e)
+                finally:
+                    self.expect_type = saved_exp
                 if tk_ != d.type[1]:
                     self.bad(st, "dict key of type %r in a dict with keys %r" % (tk_, d.type[1]))
                 self.need_import("BumpverVerif.Gen.F_PyPrelude")
@@ -1538,6 +1554,12 @@ class FuncTranslator:
             return self.block(rest, e, k)
         if self.is_dropped(st):
             return kr(env)
+        if isinstance(st, ast.Return) and getattr(self, "search_ret", None):
+            # inside a searching loop in general form: this iteration FOUND it
+            v = st.value
+            if not (isinstance(v, ast.Constant) and v.value is self.search_ret[-1]):
+                self.bad(st, "inside a searching loop every `return` must return the same Bool constant")
+            return "true"
         if isinstance(st, ast.Return):
             return self.ret(st.value, env, st)
         if isinstance(st, ast.Raise):
@@ -1667,7 +1689,10 @@ class FuncTranslator:
                 items.append("%s.%s" % (r["lean"], path) if "." not in path and " " not in r["lean"]
                              else "(fun (r : %s) => r.%s)" % (r["lean"], path))
             return "[" + ", ".join(items) + "]", PROJ(recname, ft0)
-        xs, t = self.expr(node, env)
+        if isinstance(node, ast.Tuple):
+            xs, t = self.list_literal(node, env)             # iterating a tuple LITERAL = the list of its elements
+        else:
+            xs, t = self.expr(node, env)
         if t[0] == "dict":
             return "(List.map Prod.fst %s)" % xs, t[1]       # iterating a dict = its keys, insertion order
         if t[0] != "list" or t[1] is None:
@@ -1679,6 +1704,27 @@ class FuncTranslator:
             # a raising call in the iterable is evaluated before the loop
             return self.with_hoists(lambda: self.for_stmt0(st, rest, env, k), lambda s: s)
         return self.for_stmt0(st, rest, env, k)
+
+    def search_constant(self, body):
+        """the Bool constant `c` when the loop body is a search: it contains `return`, every `return` is
+        `return c`, there is no raise/break/yield and no `return` inside a nested loop; else None"""
+        rets = []
+        for s_ in body:
+            for n in ast.walk(s_):
+                if isinstance(n, (ast.Raise, ast.Break, ast.Yield, ast.YieldFrom)):
+                    return None
+                if isinstance(n, (ast.For, ast.While)) and any(isinstance(m, ast.Return) for m in ast.walk(n)):
+                    return None
+                if isinstance(n, ast.Return):
+                    rets.append(n)
+        if not rets:
+            return None
+        vals = set()
+        for r in rets:
+            if not (isinstance(r.value, ast.Constant) and isinstance(r.value.value, bool)):
+                return None
+            vals.add(r.value.value)
+        return vals.pop() if len(vals) == 1 else None
 
     def for_stmt0(self, st, rest, env, k):
         tuple_target = (isinstance(st.target, ast.Tuple) and len(st.target.elts) >= 2
@@ -1721,6 +1767,39 @@ class FuncTranslator:
             inner = self.block(body[:-1], env_in, test_k)
             v = "(List.%s %s (fun %s =>\n%s))" % ("any" if found else "all", xs, x, indent(inner, 2))
             out = self.coerce(v, BOOL, self.spec["ret"], st)
+            return "(some %s)" % out if self.raises else out
+        # idiom 1b: the searching loop in GENERAL form: every `return` of the body returns the same Bool constant,
+        # every other path `continue`s or falls through, nothing is carried from one iteration to the next
+        found = self.search_constant(body)
+        if found is not None:
+            rest2 = [s for s in rest if not self.is_dropped(s)]
+            if not (rest2 and isinstance(rest2[0], ast.Return) and isinstance(rest2[0].value, ast.Constant)
+                    and rest2[0].value.value is (not found)):
+                self.bad(st, "a searching loop must be followed by `return %s`" % (not found))
+            if not hasattr(self, "search_ret"):
+                self.search_ret = []
+
+            def run_search(kk):
+                self.loop_k.append(kk)
+                self.search_ret.append(found)
+                try:
+                    # (the body becomes a lambda: a raising call cannot be hoisted out of it)
+                    return self.no_hoists(lambda: self.block(body, env_in, kk))
+                finally:
+                    self.loop_k.pop()
+                    self.search_ret.pop()
+            sprobes = []
+            self.probe(lambda: run_search(lambda e: (sprobes.append(e), "false")[1]))
+            carried = [n for n in self.changed_vars(env_in, sprobes) if n in env]
+            if carried:
+                self.bad(st, "a searching loop that carries %s from one iteration to the next" % carried)
+            inner = unpack + run_search(lambda e: "false")
+            v = "(List.any %s (fun %s =>\n%s))" % (xs, x, indent(inner, 2))
+            if not found:
+                v = "(!%s)" % v
+            out = self.coerce(v, BOOL, self.spec["ret"], st)
+            if self.exc:
+                return "(Except.ok %s)" % out
             return "(some %s)" % out if self.raises else out
         # idiom 2: accumulation -> List.foldl over the loop-carried variables
         if self.contains_exit(body, allow_continue=True):
